@@ -135,6 +135,16 @@ pub fn run(ctx: &Ctx) -> Report {
         }
         return rep;
     }
+    // the interleaving shapes of the C01 corpus (a file of several runs with small and large foreign
+    // blocks in between): everything selected, and the multi-run file alone
+    for (cfg, ops) in crate::c01::corpus() {
+        let b = build(&cfg, &ops);
+        if !b.finalized || ops.len() < 6 { continue; }
+        let names: Vec<String> = spec_of(&ops, &b.results).keys().cloned().collect();
+        for s in [names.clone(), names.iter().take(1).cloned().collect()] {
+            if !check(&mut rep, &mut model, &cfg, &ops, &b, &s, &mut rng) && rep.full() { return rep; }
+        }
+    }
     let n = if CONSTS.scaled { ctx.budget(300, 10000) } else { ctx.budget(24, 300) };
     for i in 0..n {
         let cfg = Cfg::make(&mut rng, (i % 4) as u8);
